@@ -21,7 +21,7 @@ class Gen5(P.Gen):
 
     def __init__(self, rng, **kw):
         super().__init__(rng, **kw)
-        self.w.update({"dupselect": 0.8, "joinpick": 1.2, "exclude": 1.6, "knownjoin": 1.5, "joinsplitpick": 1.5, "casealias": 0.5, "unnamedjoin": 0.4})
+        self.w.update({"dupselect": 0.8, "joinpick": 1.2, "exclude": 1.6, "knownjoin": 1.5, "joinsplitpick": 1.5, "casealias": 0.5, "unnamedjoin": 0.4, "exprdup": 0.5})
         P.nid("zz")
 
     def t_dupselect(self, st):
@@ -160,6 +160,34 @@ class Gen5(P.Gen):
             f = ("bin", "And", f, ("bin", "Or", ("bin", "Ne", ("col", None, nm), ("lit", 99)), ("isnull", ("col", None, nm), False)))
         return P.Step("joinboth", "filter %s" % P.prql_expr(f), "TFilter %s" % P.coq_expr(f), shared=n_, both=both)
 
+    def t_exprdup(self, st):
+        """the same computed expression twice in one frame: once under a name, once WITHOUT a name (`select {id, x = e, e}`, or
+        `derive {x = e}` first and the unnamed repetition in a later select).  Two columns of the final relation; terminal"""
+        r = self.r
+        cols = [c for c in st["cols"] if c[0] is None and not c[1].startswith("?")]
+        if len(cols) < 2 or st["joined"]:
+            return None
+        e = self.num(cols, 1)
+        if e[0] in ("col", "lit"):
+            e = ("bin", r.choice(["Add", "Sub", "Mul"]), ("col",) + r.choice(cols), ("col",) + r.choice(cols))
+        nm = self.newname()
+        keep = r.sample(cols, min(len(cols), r.randint(1, 2)))
+        st["stop"] = True
+        n = len(st["steps"])
+        items_p, items_c = [c for _, c in keep], ["(None, ECol None %d%%N)" % P.nid(c) for _, c in keep]
+        if r.random() < 0.5:
+            st["steps"].append(P.Step("derive", "derive {%s = %s}" % (nm, P.prql_expr(e)), "TDerive [(Some %d%%N, %s)]" % (P.nid(nm), P.coq_expr(e))))
+            named_p, named_c = nm, "(None, ECol None %d%%N)" % P.nid(nm)
+        else:
+            named_p, named_c = "%s = %s" % (nm, P.prql_expr(e)), "(Some %d%%N, %s)" % (P.nid(nm), P.coq_expr(e))
+        pair_p, pair_c = [named_p, P.prql_expr(e)], [named_c, "(None, %s)" % P.coq_expr(e)]
+        newcols = [(None, c) for _, c in keep] + [(None, nm), (None, "?%d_e" % n)]
+        if r.random() < 0.4:
+            pair_p, pair_c = pair_p[::-1], pair_c[::-1]
+            newcols = [(None, c) for _, c in keep] + [(None, "?%d_e" % n), (None, nm)]
+        st["cols"] = newcols
+        return P.Step("exprdup", "select {%s}" % ", ".join(items_p + pair_p), "TSelect [%s]" % "; ".join(items_c + pair_c))
+
     def t_casealias(self, st):
         """an alias that differs from its source column only by case: PRQL names are case-sensitive, so this is a
         NEW column next to the old one (terminal: engines resolve later references case-insensitively)"""
@@ -196,7 +224,7 @@ class Gen5(P.Gen):
         return self.t_joinpick(st)
 
 
-TERMINAL = ("joinpick", "dupselect", "unnamedjoin", "unnamedpick")
+TERMINAL = ("joinpick", "dupselect", "unnamedjoin", "unnamedpick", "exprdup")
 
 
 def frame_closed(pg):
@@ -473,6 +501,91 @@ def star_stream(ck, recs, targets=("sql.duckdb", "sql.bigquery", "sql.snowflake"
                              "schema": schema(r["instance"])}, lambda c, rec=rec: classify(rec))
 
 
+def classify_sstring(case):
+    """F50: the column names extracted from the s-string pass through a BTreeSet: the relation's columns come out in ALPHABETICAL order.
+    Predicate: the emitted SQL runs, has the right column names as a set (all distinct), and they are exactly the sorted list"""
+    got, want = case.get("got") or {}, case.get("want") or {}
+    if "cols" not in got or "cols" not in want:
+        return None
+    g, w = list(got["cols"]), list(want["cols"])
+    m = re.match(r'from s"SELECT (.*?) FROM ', case["prql"])
+    items = [x.strip() for x in m.group(1).split(",")] if m else ["*"]
+    extractable = all(re.fullmatch(r"\w+", it) or re.search(r" AS \w+$", it) for it in items)     # bare identifier or aliased: what the extraction understands
+    g0, w0 = [c for c in g if c != "nn"], [c for c in w if c != "nn"]
+    if extractable and g != w and len(set(w0)) == len(w0) and g0 == sorted(w0) and sorted(g) == sorted(w):
+        return "F50-sstring-columns-sorted"
+    return None
+
+
+def sstring_stream(ck, n):
+    """Relations given as SQL text (`from s"SELECT .."`): the final relation is whatever that SELECT returns, so the oracle needs no
+    model -- the inner SELECT is executed by itself (wrapped for the tail of the pipeline) and the emitted SQL must return the same
+    column names (count, order) and the same bag of rows.  Select lists mix bare, qualified (two of which may share their last
+    part: `t.a, u.a`), aliased and computed items over one table or a join."""
+    rng = ck.rng
+    cases = []
+    for _ in range(n):
+        two = rng.random() < 0.7
+        pool = [("t.id", "id"), ("t.a", "a"), ("t.b", "b"), ("t.c", "c"), ("t.g", "g")]
+        if two:
+            pool += [("u.id", "id"), ("u.a", "a"), ("u.d", "d"), ("u.g", "g")]
+        rng.shuffle(pool)
+        items, names = [], []
+        for q, nm in pool[:rng.randint(2, 5)]:
+            k = rng.random()
+            if k < 0.45:
+                items.append(q); names.append(nm)                                    # qualified: named by its last part
+            elif k < 0.7:
+                al = "k%d" % len(items)
+                items.append("%s AS %s" % (q, al)); names.append(al)                 # aliased
+            elif k < 0.85 and nm in ("b", "c", "d") and nm not in names:
+                items.append(nm); names.append(nm)                                   # bare (a name only one table has)
+            else:
+                al = "e%d" % len(items)
+                items.append("%s + 1 AS %s" % (q, al)); names.append(al)             # computed, aliased
+        uniq = [nm for nm in names if names.count(nm) == 1]
+        frm = "t JOIN u ON t.%s = u.%s" % ((rng.choice(["id", "g"]),) * 2) if two else "t"
+        inner = "SELECT %s FROM %s" % (", ".join(items), frm)
+        tail, wrap = "", inner
+        k = rng.random()
+        if uniq and k < 0.3:
+            x = rng.choice(uniq)
+            tail, wrap = "\nsort {%s}" % x, "SELECT * FROM (%s) ORDER BY %s" % (inner, x)
+        elif uniq and k < 0.5:
+            x = rng.choice(uniq)
+            tail, wrap = "\nderive {nn = %s + 1}" % x, "SELECT *, %s + 1 AS nn FROM (%s)" % (x, inner)
+        elif uniq and k < 0.7:
+            x = rng.choice(uniq)
+            tail, wrap = "\nfilter %s > 0" % x, "SELECT * FROM (%s) WHERE %s > 0" % (inner, x)
+        cases.append(("from s\"%s\"%s" % (inner, tail), wrap, P.gen_instance(rng, max_rows=5, min_rows=2)))
+    comp = harness("compile", [{"src": src, "target": "sql.sqlite"} for src, _, _ in cases])
+    xreqs = []
+    for (src, wrap, inst), a in zip(cases, comp):
+        xreqs.append({"setup": P.sql_setup(inst), "sql": wrap})
+        xreqs.append({"setup": P.sql_setup(inst), "sql": a.get("ok") or "select 1 where 0"})
+    xans = harness("exec", xreqs)
+    base = lambda c: re.sub(r":\d+$", "", c)
+    for i, ((src, wrap, inst), a) in enumerate(zip(cases, comp)):
+        ck.count("sstring", src + json.dumps(inst, sort_keys=True))
+        want, got = xans[2 * i], xans[2 * i + 1]
+        ck.stat("sstring", "qualified-same-last-part" if re.search(r"\bt\.(\w+)\b.*\bu\.\1\b|\bu\.(\w+)\b.*\bt\.\2\b", src.split(" FROM ")[0]) else "other")
+        why = None
+        if "rows" not in want:
+            ck.stat("sstring", "inner-sql-invalid")
+            continue
+        if "ok" not in a:
+            why = "program over an s-string relation rejected: %s" % str(a)[:200]
+        elif "rows" not in got:
+            why = "emitted SQL does not execute: %s" % str(got)[:200]
+        elif [base(c) for c in got["cols"]] != [base(c) for c in want["cols"]]:
+            why = "result columns %s, the s-string relation has %s" % ([base(c) for c in got["cols"]], [base(c) for c in want["cols"]])
+        elif not R.rows_equal([[R.decode_sqlite(v) for v in r] for r in got["rows"]], [[R.decode_sqlite(v) for v in r] for r in want["rows"]], "ORDER BY" in wrap):
+            why = "rows differ from the s-string relation's"
+        if why:
+            ck.disagreement("%s: %s" % (why, src.replace("\n", " | ")[:260]),
+                            {"prql": src, "target": "sql.sqlite", "sql": a.get("ok"), "expected_sql": wrap, "instance": inst, "got": got, "want": want}, classify_sstring)
+
+
 def judge_star(rec, cols):
     mn = rec.get("model_names")
     rn = rec["program"].meta.get("rename") or {}
@@ -538,6 +651,8 @@ def run():
     add(["casealias"], False, k=4 * m)
     add(["derive", "casealias"], False, k=4 * m)
     add(["group_take"], False, k=4 * m)
+    add(["exprdup"], True, k=6 * m)                            # one expression twice in the frame: named and unnamed
+    add(["derive", "exprdup"], True, k=4 * m)
     add(["join", "joinboth"], False, k=10 * m)                  # t.N in a derive, u.N in a filter behind the split (N in both tables)
     add(["unnamedjoin"], False, k=8 * m)                       # joined sub-pipeline with two un-named columns: reaching the result / behind a closing select
     add(["sort", "unnamedjoin"], False, rename=True, k=4 * m)
@@ -567,6 +682,7 @@ def run():
     wildcard_stream(ck, srcs)
     dedup_stream(ck, srcs)
     star_stream(ck, recs)
+    sstring_stream(ck, ck.n(60, 600) * (3 if broken else 1))
     ck.proof_broken_violation(found_input=bool(ck.violations))
     ck.assumptions += ["every table has an extra column `zz` that no program mentions, so a `*` the compiler emits expands at run time to more than the compiler knows",
                        "unnamed frame columns (expressions without alias, names shadowed by a later column of the same name) impose no name, only a position"]
